@@ -56,14 +56,16 @@ def rule_axes(ctx, py):
     f = py.fn(T + "get_trajectory_point")
     rets = [r for r in ast.walk(f) if isinstance(r, ast.Return)]
     ctx.need(len(rets) == 1 and isinstance(rets[0].value, ast.Call), R, "get_trajectory_point: return not recognised")
+    from .. import pysym
     e = rets[0].value.args[0]
-    p = py_poly(e)
-    S, C = Poly.sym("self.nspecies()"), Poly.sym("self.ncells()")
-    want = Poly.sym("sample_index") * S * C + Poly.sym("species_index") * C + Poly.sym("cell_index")
-    kinds = {v: idx_kind(ast.parse(v, mode="eval").body, f, rets[0]) for v in ("sample_index", "species_index", "cell_index")}
-    ctx.check(p == want and kinds == {"sample_index": "sample", "species_index": "species", "cell_index": "cell"}, R,
-              rets[0], f._qual, pyfe.src(e), "sample*nspecies*ncells + species*ncells + cell",
-              "flat index %r with kinds %s is not the [sample][species][cell] form" % (p, kinds))
+    got = pysym.frat(e, f)
+    wexpr = ast.parse("sample * self.nspecies() * self.ncells() + "
+                      "self.system.network.get_species_index(species) * self.ncells() + "
+                      "self.system.space.get_cell_index(position)", mode="eval").body
+    want = pysym.rat(wexpr)
+    ctx.check(got.equals(want), R, rets[0], f._qual, pyfe.src(e), "sample*nspecies*ncells + species*ncells + cell, with "
+              "species and cell resolved from the arguments",
+              "flat index %r is not sample*nspecies*ncells + species*ncells + cell" % (got,))
     ctx.check(pyfe.src(rets[0].value.func) == "self.data.get_at", R, rets[0], f._qual, "read through data.get_at",
               "keeps the data's units", "")
     # every accessor re-wraps with the data's units
@@ -102,11 +104,23 @@ def rule_resolve(ctx, py):
 
 
 def returns_with_facts(f):
+    """(node, returned expression text with locals inlined, facts); `return a if c else b` counts as two returns"""
+    from .. import pysym
     out = []
 
+    def emit(node, value, cfg):
+        if isinstance(value, ast.IfExp):
+            c = pysym.inline(value.test, f)
+            emit(node, value.body, cfg | frozenset(pya.atoms(c, True)))
+            emit(node, value.orelse, cfg | frozenset(pya.atoms(c, False)))
+            return
+        out.append((node, pysym.isrc(value, f) if value is not None else "None", cfg))
+
     class C(pya.PyFacts):
+        inline_fn = f
+
         def ret(self, s, cfg):
-            out.append((s.src, pyfe.src(s.src.value) if s.src.value is not None else "None", cfg))
+            emit(s.src, s.src.value, cfg)
     ir.Engine(C(), "must").run(ir.py_to_ir(f.body))
     return out
 
@@ -120,8 +134,8 @@ TILES = {
         ("None", [EMPTY]),
         ("0", [("t <= " + FIRST, True)]),
         ("self.nsamples() - 1", [(LAST + " <= t", True)]),
-        ("i", [(LO + " <= t", True), ("t < " + HI, True), ("dt0 <= dt1", True)]),
-        ("i + 1", [(LO + " <= t", True), ("t < " + HI, True), ("dt0 <= dt1", False)]),
+        ("i", [(LO + " <= t", True), ("t < " + HI, True), ("t - %s <= %s - t" % (LO, HI), True)]),
+        ("i + 1", [(LO + " <= t", True), ("t < " + HI, True), ("t - %s <= %s - t" % (LO, HI), False)]),
     ],
     "_get_sample_index_infeq": [
         ("None", [EMPTY]),
@@ -144,6 +158,8 @@ def rule_tiling(ctx, py):
     for name, want in TILES.items():
         f = py.fn(T + name)
         got = returns_with_facts(f)
+        got = [g for g in got if g[1] != "None" or any(isinstance(t, str) and (" t" in t or "t " in t or "len(" in t)
+                                                         for t, p in g[2])]
         ctx.need(len(got) == len(want), R, "%s: %d returns, expected %d" % (name, len(got), len(want)))
         for (node, expr, facts), (wexpr, wfacts) in zip(got, want):
             okk = expr == wexpr and all(x in facts for x in wfacts)
@@ -154,13 +170,9 @@ def rule_tiling(ctx, py):
                       "boundary / interval test as documented",
                       "returns %s under [%s]: the lookups no longer tile the time axis with the documented "
                       "boundaries and ties" % (expr, "; ".join(mine)))
-        if name.endswith("closest"):
-            defs = {st.targets[0].id: pyfe.src(st.value) for st in ast.walk(f) if isinstance(st, ast.Assign) and
-                    isinstance(st.targets[0], ast.Name)}
-            ctx.check(defs.get("dt0") == "t - " + LO and defs.get("dt1") == HI + " - t", R, f, f._qual,
-                      "dt0 = t - t[i], dt1 = t[i+1] - t", "distances to the two neighbours", "distances mis-defined")
+        from .. import pysym
         loops = [n for n in ast.walk(f) if isinstance(n, ast.For)]
-        ctx.check(len(loops) == 1 and pyfe.src(loops[0].iter) == "range(self.nsamples() - 1)", R,
+        ctx.check(len(loops) == 1 and pysym.isrc(loops[0].iter, f) == "range(self.nsamples() - 1)", R,
                   loops[0] if loops else f, f._qual, "interval loop over range(nsamples - 1)", "all intervals", "wrong range")
     ctx.floor(R, 17)
 
